@@ -142,6 +142,31 @@ add("C08", "E1",
     "(counted). Shipped-model vocabulary part not built yet.",
     "DESIGN.md §4 C08")
 
+add("C09", "E1",
+    "bounded-exhaustive rendering of instruction ASTs x layouts, field-by-field parse-back comparison",
+    "Instruction ASTs (every GPR family and width, xmm/ymm/zmm 0/15/31 (thorough 0-31), immediates "
+    "incl. negative and 64-bit decimal/hex, labels incl. register-like names, all base/index/"
+    "displacement combinations x scales x displacement spellings) are rendered with layout variants "
+    "(leading blanks/tab, spacing after the mnemonic, 4 separator spacings, trailing blanks, trailing "
+    "'#'/'//' comment with and without a separating blank) and parsed by the real parser; arity 0-1 "
+    "complete, arity 2 all ordered pairs of a reduced pool, arity 3-4 covering family; plus all 2800 "
+    "files of <= 4 lines over 7 line kinds (line numbers, verbatim text, exactly one classification).",
+    "Trusted: mc/ref/asm.py (AT&T operand grammar as rendered). D7 (displacement-only memory "
+    "operand) is a listed known finding. The empty operand '()' is outside the domain.",
+    "DESIGN.md §4 C09/C10")
+add("C10", "E1",
+    "bounded-exhaustive rendering of instruction ASTs x layouts, field-by-field parse-back comparison",
+    "Same machinery as C09 for AArch64: scalar registers of every prefix, vector registers with "
+    "lanes/shape/element index, SVE and predicate registers with predication/shape, sp/zr aliases, "
+    "register lists and ranges with and without index (expanded to members), immediates with/without "
+    "'#' in decimal, hex, negative, floating point with/without exponent, all condition codes, labels "
+    "incl. register-like and condition-like names, memory with base (incl. sp), immediate offset, "
+    "register index with lsl/sxtw/uxtw #n (scale 2^n), pre- and post-index; memory operand last; "
+    "mnemonics with '.cond' suffix; files over 7 line kinds.",
+    "Trusted: mc/ref/asm.py. D24 (condition code followed by a blank parsed as label) is a listed "
+    "known finding.",
+    "DESIGN.md §4 C09/C10")
+
 NOT_YET = {}
 
 def main():
